@@ -383,3 +383,13 @@ std::vector<std::string> guardFunctionNames() {
     for (uint32_t i = 1; i <= g_nGuards; i++) v.push_back(fnOfGuard(i));
     return v;
 }
+
+// pc of every guard (from the pc-table), index = guard id - 1
+std::vector<uint64_t> guardPcs() {
+    std::vector<uint64_t> v;
+    for (uint32_t i = 1; i <= g_nGuards; i++) {
+        const uintptr_t *e = g_pcsBeg ? g_pcsBeg + 2 * (size_t)(i - 1) : nullptr;
+        v.push_back(e && e + 1 < g_pcsEnd ? (uint64_t)e[0] : 0);
+    }
+    return v;
+}
